@@ -3,7 +3,8 @@
 Decided here for the transport-fault family: the byte strings a faulty network
 makes out of valid traffic (prefix truncation at every offset, bit flips, lost
 bytes, duplicated / swapped / zero-filled segments, inserted garbage, trailing
-garbage under a lying Content-Length), plus empty and random-byte bodies.  Half of
+garbage under a lying Content-Length, burst damage that overwrites one leaf-value
+span with a seeded token), plus empty and random-byte bodies.  Half of
 the point corruptions are aimed at the byte spans of leaf values.  Oracle: no
 escaping exception; a normal response or a Client-family fault document of the
 output protocol (4xx over HTTP for non-SOAP); never a Server fault; user function
@@ -63,7 +64,30 @@ ASSUMPTIONS = [
 ROUTES = ['wsgi', 'sb']
 METHODS = ['prims', 'echo', 'inners', 'strict']
 KINDS = ['bitflip', 'drop', 'dup', 'swap', 'zero', 'insert', 'trailing',
-         'random', 'empty', 'truncate']
+         'random', 'empty', 'splice', 'splice', 'truncate']
+
+# Burst damage inside a leaf value: what a value span looks like after a
+# multi-byte burst error / a torn write / a buffer re-use.  (The span keeps
+# its position in the document; only the bytes of one leaf change.)
+SPLICE_TOKENS = [
+    b'', b' ', b'-', b'--', b'+', b'.', b'0', b'-0', b'00', b'1e999', b'-1e999',
+    b'NaN', b'nan', b'Infinity', b'-inf', b'0x10', b'1_000', b'1,5', b'1.5.2',
+    b'99999999999999999999999999999999999999999', b'-99999999999999999999',
+    b'2020-13-45', b'2020-02-30', b'2020-02-30Z', b'0000-00-00', b'2020-1-2',
+    b'20200102', b'2020-01-02T25:61:61', b'2020-01-02T03:04:05+99:00',
+    b'2020-01-02T03:04:05.1234567890123', b'2020-01-02T03:04', b'T03:04:05',
+    b'24:00:00', b'03:04:60', b'3:4:5', b'03:04:05.', b'03:04:05Z+01:00',
+    b'P', b'PT', b'P1', b'P1Y2M3DT4H5M6.7S', b'P9999999999D', b'-P1D',
+    b'PT1e5S', b'P1DT', b'1D',
+    b'00000000-0000-0000-0000-00000000000', b'g0000000-0000-0000-0000-'
+    b'000000000000', b'{00000000-0000-0000-0000-000000000000}', b'urn:uuid:0',
+    b'AAA', b'A===', b'A=A=', b'!!!!', b'AAAA AAAA', b'QUJD\nQUJD',
+    b'true', b'false', b'TRUE', b'1', b'2', b'yes', b'null', b'None', b'~',
+    b'[]', b'{}', b'[1]', b'{"a":1}', b'"x"', b"'x'", b'<x/>', b'&amp;',
+    b'&#0;', b'&#xD800;', b'&bogus;', b'\xff\xfe', b'\xc3', b'\xe4\xb8',
+    b'\x00', b'\x7f', b'\xef\xbb\xbf1', b'\xd9\xa1\xd9\xa2\xd9\xa3', b'\t1\n',
+    b'a' * 70, b'9' * 1100,
+]
 
 
 def _configs():
@@ -163,6 +187,9 @@ def _draw_ops(case, data, rng):
             ops.append(['trailing', base64.b16encode(bytes(bytearray(
                 rng.randint(0, 255) for _ in range(rng.randint(1, 9)))))
                                                            .decode('ascii')])
+        elif kind == 'splice':
+            a, b = rng.choice(spans)
+            ops.append(['splice', a, b, rng.randrange(len(SPLICE_TOKENS))])
         elif kind == 'random':
             ops.append(['random', base64.b16encode(bytes(bytearray(
                 rng.randint(0, 255) for _ in range(rng.randint(1, 40)))))
@@ -208,6 +235,9 @@ def apply_op(data, op):
         return base64.b16decode(op[1])
     if k == 'empty':
         return b''
+    if k == 'splice':
+        tok = SPLICE_TOKENS[op[3] % len(SPLICE_TOKENS)]
+        return data[:op[1]] + tok + data[op[2]:]
     raise ValueError(op)
 
 
